@@ -57,7 +57,7 @@ add('C04', 'exploration',
     'ACK is delivered; the peer sizes DATA against them (exact fit, fit-1, overrun by one, padding 0..255). '
     'remote_flow_control_window and the public connection inbound window are compared after every step; raising '
     'increments must leave every window unchanged.',
-    'At most one SETTINGS frame in flight (settings/ACK matching is C11); increases that would overflow an existing window are undetermined.')
+    'Up to three INITIAL_WINDOW_SIZE changes in flight, each SETTINGS frame carrying only that setting; increases that would overflow an existing window are undetermined.')
 
 add('C05', 'exploration',
     'runtime monitoring: quiescent-point invariant (all bytes acknowledged => windows positive) + conservation of credit',
